@@ -183,12 +183,21 @@ def main(ctx: Ctx) -> int:
     rng = random.Random(ctx.seed)
     traces = []
     n = 25 if ctx.quick else 3000
-    for fmt in ("kida", "umist", "leeds", "uclchem", "krome", "naunet"):
-        for k in range(n):
+    made: dict = {}
+    # second pass: the first files of every format are read once more after all the others (a reader that remembers anything
+    # from an earlier file - a format line, a column order, a marker list - reads them differently the second time)
+    plan = [(fmt, k, False) for fmt in ("kida", "umist", "leeds", "uclchem", "krome", "naunet") for k in range(n)]
+    plan += [(fmt, k, True) for fmt in ("krome", "kida", "umist", "leeds", "uclchem", "naunet") for k in range(4)]
+    for fmt, k, again in plan:
+        if True:
             custom = fmt in ("kida", "naunet", "krome") and k % 5 == 4      # a network that declares its own marker tokens
             # the first KROME files use, in lower case, each column order whose first keyword is not `idx`
             forced = {0: "R,R,P,P,Tmin,Tmax,rate", 1: "rate,idx,R,R,P,P", 2: "Tmin,Tmax,R,P,P,rate"}.get(k) if fmt == "krome" else None
-            text, lines, exempt = gen_file(rng, fmt, custom, forced)
+            if again:
+                text, lines, exempt = made[(fmt, k)]
+            else:
+                text, lines, exempt = gen_file(rng, fmt, custom, forced)
+                made[(fmt, k)] = (text, lines, list(exempt))
             f = ctx.sub("in") / f"{fmt}_{k}.txt"
             f.write_text(text)
             obs = {"ok": True, "reactions": [], "err": ""}
